@@ -1215,12 +1215,18 @@ Proof. vm_compute. reflexivity. Qed.
     the events written and leaves [rest]; draining the traversal decoder yields the reversed symbols, the bits and the seams;
     and the connectivity state machine run on what was drained accepts and rebuilds a corner table isomorphic to the
     encoder's.  Premises besides encoder success: the 2^31 size bound, guard G3 (as in [C01_ebsim_roundtrip_ct]) and the
-    bit-sequence length bounds of TRAV (fewer than 2^32 - 3 bits per sequence). *)
+    bit-sequence length bound of TRAV for the attribute seam sequences (fewer than 2^32 - 3 bits each); for the start-face
+    bits the bound is proved ([C01_ebenc_start_bits_bounded]: at most one bit per corner of the input). *)
+Theorem C01_ebenc_start_bits_bounded : forall c2v opp nv niso ndeg o, eb_encode c2v opp nv niso ndeg = EOk o ->
+  length (o_bits o) <= length c2v.
+Proof. exact eb_encode_bits_le. Qed.
+Print Assumptions C01_ebenc_start_bits_bounded.
+
 Theorem C01_eb_connectivity_stream_roundtrip : forall faces t o rm seams trav bs rest,
   ct_create faces = Some t -> eb_encode_ct t = EOk o ->
   (Z.of_nat (3 * length faces + length (ct_vcorn t)) < 2147483648)%Z ->
   ((3 * o_nfaces o) / 2 <= (o_nverts o * (o_nverts o - 1)) / 2)%Z ->
-  bits_len_ok (o_bits o) -> Forall bits_len_ok seams ->
+  Forall bits_len_ok seams ->
   enc_trav_std (o_nfaces o) (o_syms o) (o_bits o) seams = Some trav ->
   enc_conn (hdr_of o (zlen seams)) (o_events o) trav = Some bs ->
   exists d syms' bits' seams',
@@ -1231,7 +1237,7 @@ Theorem C01_eb_connectivity_stream_roundtrip : forall faces t o rm seams trav bs
       Edgebreaker.eb_full (o_nverts o) (o_nfaces o) (o_nsplit o) rm syms' (o_events o) (Edgebreaker.bits_of_list bits')
         = Edgebreaker.Ok (n, s) /\
       eb_iso (ct_c2v t) (ct_opp t) (o_pcc o) (Edgebreaker.c2v s) (Edgebreaker.copp s).
-Proof. exact eb_connectivity_stream_roundtrip. Qed.
+Proof. exact eb_connectivity_stream_roundtrip'. Qed.
 Print Assumptions C01_eb_connectivity_stream_roundtrip.
 
 Definition stream_info faces (seams : list (list bool)) :=
